@@ -198,7 +198,9 @@ def fix_sizes(rng, chains, slack=(0, 0, 1, 4, 9)):
             s.size = size[s.name]
 
 
-ODD_CONTIGS = ["", "x:y", "\u00e9\u4e2d", "Chr1", "chr1.1", "a\tb", "-", "+"]
+ODD_CONTIGS = ["", "x:y", "\u00e9\u4e2d", "Chr1", "chr1.1", "a\tb", "-", "+",
+               # names that collide under case folding, Unicode normalisation, numeric reading, truncation or hashing-by-prefix
+               "chr1", "CHR1", "\u00e9", "e\u0301", "1", "01", "chr1_random", "N" * 300, "N" * 299 + "M", "chr1:+:0-5", "#c", "chain"]
 
 
 def gen_file(rng, max_chains=5, odd_names=False, **kw):
